@@ -44,7 +44,8 @@ def run_shard(sh):
                         if n < len(sh['first']):
                             continue
                         text = sh['first'] + ''.join(tup)
-                        cases.append({'op': 'readcomp', 'hex': text.encode('utf-8').hex(), 'encoding': 'utf-8', 'dlm': dlm, 'policy': policy, 'has_header': has_header, 'comment_prefix': comment})
+                        cases.append({'op': 'readcomp', 'hex': text.encode('utf-8').hex(), 'encoding': 'utf-8', 'dlm': dlm, 'policy': policy, 'has_header': has_header, 'comment_prefix': comment,
+                                      'also_slow_consumer': sh.get('slow', False)})
                         meta.append((text, text, 'utf-8', dlm, policy, has_header, comment))
     elif sh['kind'] == 'utf8':
         s = sh['sample']
@@ -163,6 +164,9 @@ def main(tier, seed):
             for f1 in s2:
                 shards.append({'kind': 'ascii', 'syms': s2, 'policy': pol, 'first': f1, 'minlen': 1, 'maxlen': 1})
         shards.append({'kind': 'ascii', 'syms': s2, 'policy': pol, 'first': '', 'minlen': 0, 'maxlen': 0})
+        # the same deliveries consumed one record per event-loop turn (an asynchronous writer downstream), length <= 4
+        for f1 in s2:
+            shards.append({'kind': 'ascii', 'syms': s2, 'policy': pol, 'first': f1, 'minlen': 1, 'maxlen': 5 if T else 4, 'slow': True})
     for s in SAMPLES:
         shards.append({'kind': 'utf8', 'sample': s})
     crits = [('2-byte char', 'é,x\n', 'quoted'), ('3-byte char', '€,x\n', 'quoted'), ('4-byte char', '\U0001F600,x\n', 'simple'), ('CRLF', 'p,q\r\nr,s\r\n', 'quoted'),
